@@ -1924,6 +1924,9 @@ class Frame(object):
                         return r
                 if a == "__name__":
                     return base.name
+                if a == "__dict__":
+                    # the class's own namespace: only what the class body itself binds
+                    return AStruct("class-namespace", cls=base)
                 ntf = _namedtuple_fields(I.p, base)
                 if ntf is not None and a == "_fields":
                     return tuple(ntf)
@@ -2969,6 +2972,22 @@ def lib_getattr(fr: Frame, base, a: str, node):
         if a in ("group", "start", "end", "span", "groups"):
             return BoundMethod("py", lambda fr2, args, kwargs, node2, _a=a: getattr(m, _a)(*[x.c if isinstance(x, Aff) and x.is_const else x for x in args]), a)
         fr.unsupported(node, "attribute %s of a match object" % a)
+    if isinstance(base, AStruct) and base.kind == "class-namespace":
+        ci = base.fields["cls"]
+        if a == "get":
+            def ns_get(fr2, args, kwargs, node2):
+                name = args[0]
+                default = args[1] if len(args) > 1 else kwargs.get("default")
+                if not isinstance(name, str):
+                    fr2.unsupported(node2, "class namespace read under a non-constant name")
+                stored = fr2.I.path.termeq.get(("class-store", ci.qualname, name), _MISSING)
+                if stored is not _MISSING:
+                    return stored
+                if name in ci.attrs:
+                    return fr2.getattr(ci, name, node2)
+                return default
+            return BoundMethod("py", ns_get, a)
+        fr.unsupported(node, "class namespace used through .%s" % a)
     if isinstance(base, AStruct):
         if base.kind == "slice":
             if a in ("start", "stop"):
@@ -3344,6 +3363,14 @@ def lib_call(fr: Frame, dotted: str, args, kwargs, node):
             t = Aff.sym("len:map:%s" % v.base)
             I.path.cons.add(t)
             I.path.effects.append(("map-len", v.base))
+            return t
+        if isinstance(v, AStruct) and v.kind in ("Location", "FeatureLocation"):
+            # Biopython (T3): the number of positions a location covers -- end - start for a single part
+            pv = v.fields.get("parts_value")
+            if v.kind == "FeatureLocation" or (isinstance(pv, AList) and not pv.generic and len(pv.items) == 1):
+                return Aff.of(v.fields["end"]) - Aff.of(v.fields["start"])
+            t = Aff.sym("len:location")
+            I.path.cons.add(t)
             return t
         fr.unsupported(node, "len of %r" % (v,))
     if dotted == "builtins.str":
